@@ -472,7 +472,11 @@ fn states(name: String, params: Value) -> Scenario {
         let p0 = pids.first().copied().unwrap_or(1);
         for k in [1u16, 2, 3, 6, 9] {
             pids.push(256 * k);
-            pids.push(p0 + 256 * k);
+            // (identifiers may be anywhere in 1..=65535: wrap around, never 0)
+            let q = p0.wrapping_add(256 * k);
+            if q != 0 {
+                pids.push(q);
+            }
         }
         pids.push(999);
         let mut menu: Vec<SPacket> = vec![];
